@@ -34,6 +34,27 @@ var lastResortUsed int32
 
 const lastResortMax = 6
 
+// loadFactor: how many runnable processes there are per core (1-minute load average over the
+// core count), between 1 and 4. Short wall-clock solver limits are stretched by it.
+func loadFactor() float64 {
+	b, err := os.ReadFile("/proc/loadavg")
+	if err != nil {
+		return 1
+	}
+	var l1 float64
+	if _, err := fmt.Sscanf(string(b), "%f", &l1); err != nil {
+		return 1
+	}
+	f := l1 / float64(runtime.NumCPU())
+	if f < 1 {
+		return 1
+	}
+	if f > 4 {
+		return 4
+	}
+	return f
+}
+
 // overloaded reports whether the machine runs clearly more than one process per core
 // (1-minute load average above 1.25 times the core count): the only situation in which the
 // last solver round is used.
@@ -221,6 +242,7 @@ func Solve(tr *TargetResult, opts *SolveOpts) []*OblResult {
 	if opts.TimeoutS < batchT {
 		batchT = opts.TimeoutS
 	}
+	batchT = int(float64(batchT)*loadFactor() + 0.5)
 	var rest []int
 	var restMu sync.Mutex
 	var cwg sync.WaitGroup
@@ -524,7 +546,10 @@ func phase0(tr *TargetResult, opts *SolveOpts, results []*OblResult, pending []i
 		go func() {
 			defer wg.Done()
 			var q strings.Builder
-			q.WriteString("(set-option :timeout 400)\n")
+			// the per-goal limit is wall-clock time: on an oversubscribed machine it is stretched
+			// by the load factor, so that the cheap goals still finish here instead of falling
+			// through to a solver process of their own
+			fmt.Fprintf(&q, "(set-option :timeout %d)\n", int(400*loadFactor()))
 			q.WriteString(tr.Script)
 			// Every goal is checked under an assumption literal (no push/pop: a goal can leave
 			// nothing behind, whatever happens to the query before or after it), and announced
